@@ -513,9 +513,8 @@ def model_line(im, jpg):
     if not pj or not pj[0]:
         return None
     frame, scans = pj
-    if frame["sof"] in (0xC9, 0xCA):
-        return None
-    prog = 1 if frame["sof"] == 0xC2 else 0
+    arith = 1 if frame["sof"] in (0xC9, 0xCA) else 0
+    prog = 1 if frame["sof"] in (0xC2, 0xCA) else 0
     ids = [c[0] for c in frame["comps"]]
     parts = []
     for s in scans:
@@ -523,12 +522,15 @@ def model_line(im, jpg):
         for cid, td, ta in s["comps"]:
             need_dc = (not prog) or s["Ss"] == 0 and s["Ah"] == 0
             need_ac = (not prog) or s["Ss"] > 0
+            if arith:
+                toks += ["%d:%d:%d" % (ids.index(cid), td, ta), "-", "-"]
+                continue
             toks.append(str(ids.index(cid)))
             toks.append(tbl_str(s["dht"].get(td) if need_dc else None))
             toks.append(tbl_str(s["dht"].get(0x10 | ta) if need_ac else None))
         toks.append(bytes(s["data"]).hex())
         parts.append(" ".join(toks))
-    line = "jpg %s %d | %s | %s | %s" % (im.head(), prog, im.samp_s(), " ".join(im.entries), " ; ".join(parts))
+    line = "jpg %s %d %d | %s | %s | %s" % (im.head(), prog, arith, im.samp_s(), " ".join(im.entries), " ; ".join(parts))
     return line, scans
 
 
@@ -886,6 +888,6 @@ def run_cases(ctx, cases, exes, drv, flavours):
                        "arithmetic, restart 0/1/2/7/MCUs-1/MCUs/65535/rows, non-interleaved, transcoding}; scan scripts valid/mutated/random; "
                        "a case is distinct when its output bytes are distinct")
     ctx.assume += ["correspondence is differential testing of the hand models against the real coders; it supports the tie, not the theorems",
-                   "arithmetic-coded variants are covered by the property-level oracle only (the QM coder is not modelled executably)",
+                   "arithmetic scans: the extracted binarisation (model/ArithBin.v) + the QM coder model of C04 (model/T81Arith.v) must reproduce the real bytes and decode them",
                    "MCU layout / dummy blocks of jctrans.c compress_output are reproduced by glue in ml/C03_driver.ml, checked only by byte equality"]
     ctx.trusted.append("checks/C03.py marker parser (SOF/DHT/DRI/SOS) used to cut the real files into scans for the model")
